@@ -39,7 +39,10 @@ fn main() {
         _ => 1,
     });
     match id.as_str() {
-        "C01" => txcheck::c01(&mut ctx),
+        "C01" => {
+            golden::golden_part(&mut ctx);
+            txcheck::c01(&mut ctx);
+        }
         "C02" => histcheck::c02(&mut ctx),
         "C03" => ops::c03(&mut ctx),
         "C04" => ops::c04(&mut ctx),
